@@ -1,6 +1,6 @@
 (** * C08 - Filtering keeps exactly the confirmed tickets; ticket space stays consistent. *)
 From LP Require Import Proofs.Tactics Proofs.Loop Proofs.Resume Proofs.Shuffle Proofs.Settle Proofs.Filter Proofs.ClaimLedger
-  Proofs.Partition Proofs.Examples.
+  Proofs.Partition Proofs.Examples Proofs.Setup Proofs.SetupGt Proofs.SetupNft Proofs.SetupNgt Proofs.Tiling.
 Open Scope N_scope.
 
 (** [l] is the allocation in order: the chain of non-empty batches from ticket 1 to the last ticket,
@@ -74,6 +74,40 @@ Theorem C08_layout_facts : forall s A,
   sumN (map (winning_of s) A) = count_winning s (range_ids 1 total).
 Proof. exact layout_facts. Qed.
 
+(** ** from deployment: for every set-up history of every contract and every interruption schedule of
+    the filter, the participants' ranges tile 1..total in allocation order ([Layout]: participant [a]
+    owns [new_range before (confirmed a)], i.e. nothing if it confirmed nothing or was blacklisted,
+    else the [confirmed a] tickets after those of the participants before it), total = sum of confirmed
+    tickets, nobody else owns a ticket, confirmations are untouched and the winners count is capped *)
+Theorem C08_from_deployment : forall (H : list N -> list N) v w0 lf wf ef bf w1,
+  plain v -> setup_reach H v w0 ->
+  after_interrupted filter_tickets lf w0 = Some wf -> filter_tickets ef bf wf = Ok (w1, 0) ->
+  exists l : list (N * N), let A := map fst l in
+    Layout (range (st w1)) (confirmed (st w1)) 0 A /\ NoDup A /\
+    last_ticket_id (st w1) = sumN (map (confirmed (st w1)) A) /\
+    confirmed (st w1) = confirmed (st w0) /\
+    (forall a, ~ In a A -> range (st w1) a = None) /\
+    nr_winning (st w1) = N.min (nr_winning (st w0)) (sumN (map (confirmed (st w0)) A)).
+Proof. exact deployed_tiling. Qed.
+
+Theorem C08_from_deployment_gt : forall (H : list N -> list N) v w0 lf wf ef bf w1,
+  guar v -> setup_reach_gt H v w0 ->
+  after_interrupted filter_tickets lf w0 = Some wf -> filter_tickets ef bf wf = Ok (w1, 0) ->
+  exists l, tiled w0 w1 l.
+Proof. exact deployed_tiling_gt. Qed.
+
+Theorem C08_from_deployment_nft : forall (H : list N -> list N) w0 lf wf ef bf w1,
+  setup_reach_nft H w0 ->
+  after_interrupted filter_tickets lf w0 = Some wf -> filter_tickets ef bf wf = Ok (w1, 0) ->
+  exists l, tiled w0 w1 l.
+Proof. exact deployed_tiling_nft. Qed.
+
+Theorem C08_from_deployment_ngt : forall (H : list N -> list N) w0 lf wf ef bf w1,
+  setup_reach_ngt H w0 ->
+  after_interrupted filter_tickets lf w0 = Some wf -> filter_tickets ef bf wf = Ok (w1, 0) ->
+  exists l, tiled w0 w1 l.
+Proof. exact deployed_tiling_ngt. Qed.
+
 Example C08_nonvacuous :
   let w := step_sha Base base_confirmed (mkenv 2 20 0 [], 50%nat, [], CFilter) in
   Chain (st base_confirmed) 5 1 [(2, 3); (3, 2)] /\
@@ -92,4 +126,8 @@ Print Assumptions C08_schedule_independent.
 Print Assumptions C08_compact_spec.
 Print Assumptions C08_layout.
 Print Assumptions C08_layout_facts.
+Print Assumptions C08_from_deployment.
+Print Assumptions C08_from_deployment_gt.
+Print Assumptions C08_from_deployment_nft.
+Print Assumptions C08_from_deployment_ngt.
 Print Assumptions C08_nonvacuous.
